@@ -397,6 +397,7 @@ class Engine:
 		self.cur_label = self.label_of(qualname, inst_name)
 		self.top_label = self.cur_label
 		self._t_start = time.time()
+		self._c_start = time.process_time()
 		self._stmt_count = 0
 		reset_names()     # query texts of one function do not depend on what was verified before it
 		self.cur_contract = c
@@ -572,7 +573,9 @@ class Engine:
 		# changed code can make the symbolic execution loop (a concrete loop that no longer terminates, a path explosion):
 		# that is an undecided target, never a hang of the check
 		self._stmt_count = getattr(self, '_stmt_count', 0) + 1
-		if self._stmt_count % 64 == 0 and time.time() - getattr(self, '_t_start', time.time()) > self.MAX_SECONDS:
+		# (CPU seconds of this process, so that busy cores do not turn a target into UNDECIDED; wall clock as a net only)
+		if self._stmt_count % 64 == 0 and (time.process_time() - getattr(self, '_c_start', time.process_time()) > self.MAX_SECONDS
+		                                   or time.time() - getattr(self, '_t_start', time.time()) > 8 * self.MAX_SECONDS):
 			raise PathLimit(f'obligation generation for {self.cur_label} exceeded {self.MAX_SECONDS} s')
 
 	def exec_stmt(self, node, st):
